@@ -1201,6 +1201,10 @@ impl<'a> Gen<'a> {
                 for b in bits.bytes() {
                     v = (v << 1) | (b == b'1') as u128;
                 }
+                // from_u128 looks only at the low word when the width is at most 64: garbage above bit 63 is dropped
+                if w <= 64 && self.rng.chance(1, 3) {
+                    v |= (1 + self.rng.below(1000) as u128) << 64;
+                }
                 return Op::BitVecVal(v, w);
             }
             _ => {}
@@ -1309,7 +1313,10 @@ impl<'a> Gen<'a> {
             15 => Op::BvSym(self.name(), 0),
             16 => Op::ArrSym(self.name(), self.rng.below(2) as u32, self.rng.below(2) as u32),
             17 => Op::Zero(0),
-            18 => Op::BitVecVal(self.rng.next_u64() as u128, self.rng.below(10) as u32),
+            18 => {
+                let hi = if self.rng.chance(1, 2) { (self.rng.next_u64() as u128) << 64 } else { 0 };
+                Op::BitVecVal(hi | self.rng.next_u64() as u128, *self.rng.pick(&[0u32, 1, 5, 8, 63, 64, 65, 100, 127, 128, 129]))
+            }
             19 => Op::Xor3(a, b, c),
             20 => Op::Maj(a, b, c),
             21 => Op::Distinct(a, b),
